@@ -7,6 +7,7 @@ import (
 	"go/token"
 	"go/types"
 	"regexp"
+	"sort"
 	"strings"
 
 	"golang.org/x/tools/go/ssa"
@@ -284,3 +285,99 @@ func (c *Ctx) argR(in ssa.Instruction, i int) string {
 
 // typeIs reports whether t is the named type pkg.Name (pointer stripped).
 func typeIs(t types.Type, short string) bool { return typeStr(deref(t)) == short }
+
+// discardedErrors lists every call in the given packages (short names) whose
+// error result is dropped: never extracted, or extracted and never used, or the
+// call is deferred / started as a goroutine. Keyed "caller -> callee".
+func (c *Ctx) discardedErrors(pkgs []string) map[string][]ssa.Instruction {
+	p := c.P
+	out := map[string][]ssa.Instruction{}
+	used := func(v ssa.Value) bool {
+		if v.Referrers() == nil {
+			return false
+		}
+		for _, r := range *v.Referrers() {
+			if _, dbg := r.(*ssa.DebugRef); !dbg {
+				return true
+			}
+		}
+		return false
+	}
+	for _, fn := range p.SrcFuncs() {
+		if !c.inScope(fn, pkgs) {
+			continue
+		}
+		for _, b := range fn.Blocks {
+			for _, in := range b.Instrs {
+				cc := callCommon(in)
+				if cc == nil {
+					continue
+				}
+				sig := cc.Signature()
+				if sig == nil {
+					continue
+				}
+				res := sig.Results()
+				idx := -1
+				for i := 0; i < res.Len(); i++ {
+					if isErrorType(res.At(i).Type()) {
+						idx = i
+					}
+				}
+				if idx < 0 {
+					continue
+				}
+				dropped := false
+				switch x := in.(type) {
+				case *ssa.Defer, *ssa.Go:
+					dropped = true
+				case *ssa.Call:
+					if res.Len() == 1 {
+						dropped = !used(x)
+					} else {
+						dropped = true
+						if x.Referrers() != nil {
+							for _, r := range *x.Referrers() {
+								if e, ok := r.(*ssa.Extract); ok && e.Index == idx && used(e) {
+									dropped = false
+								}
+							}
+						}
+					}
+				}
+				if dropped {
+					k := p.FuncName(topFunc(fn)) + " -> " + p.CalleeName(cc)
+					out[k] = append(out[k], in)
+				}
+			}
+		}
+	}
+	return out
+}
+
+// NoDiscardedErrors (K7, repository-wide): an error result is dropped only at
+// the confirmed (caller -> callee) pairs of the table.
+func (c *Ctx) NoDiscardedErrors(key string, pkgs []string, allowed map[string]string, min int) {
+	rule := "K7 no discarded error (whole packages, frozen exception table)"
+	desc := "in packages " + strings.Join(pkgs, ", ") + " an error result is dropped only at the confirmed caller/callee pairs (close of a read handle, removal of a temp file, best-effort notifications)"
+	why := "an error that is dropped on a storage, replication or lease call lets the operation report success although the step it depends on did not happen"
+	got := c.discardedErrors(pkgs)
+	n := 0
+	var bad []string
+	for k, ins := range got {
+		n += len(ins)
+		if _, ok := allowed[k]; !ok {
+			bad = append(bad, k+" at "+c.where(ins[0]))
+		}
+	}
+	sort.Strings(bad)
+	if len(bad) > 0 {
+		c.fail(key, rule, desc, why, "error dropped at a pair that is not in the table: "+strings.Join(bad, "; "), n)
+		return
+	}
+	if n < min {
+		c.fail(key, rule, desc, why, fmt.Sprintf("only %d dropped-error site(s) recognised, expected >= %d (matcher no longer recognises the construct)", n, min), n)
+		return
+	}
+	c.ok(key, rule, desc, n)
+}
